@@ -108,12 +108,14 @@ func memHistory(r *rng.R, spec string, flavour int, length int) string {
 	var ops, res []string
 	snapImages := []string{}
 	haveSnap := false
+	pend("mem %s %d |", spec, flavour)
 	for i := 0; i < length; i++ {
 		k := r.Intn(100)
 		switch {
 		case k < 30:
 			a := cpuAddr(r, spec)
 			var v uint8
+			pendAppend(fmt.Sprintf(" l%04x", a))
 			if protect(func() { v = m.Load(a) }) {
 				res = append(res, "!")
 			} else {
@@ -123,6 +125,7 @@ func memHistory(r *rng.R, spec string, flavour int, length int) string {
 		case k < 60:
 			a := cpuAddr(r, spec)
 			v := regValue(r, spec, a)
+			pendAppend(fmt.Sprintf(" s%04x=%02x", a, v))
 			if protect(func() { m.Store(a, v) }) {
 				res = append(res, "!")
 			} else {
@@ -132,6 +135,7 @@ func memHistory(r *rng.R, spec string, flavour int, length int) string {
 		case k < 70 && flavour >= 5:
 			l := linAddr(r, spec)
 			var v uint8
+			pendAppend(fmt.Sprintf(" L%08x", l))
 			if protect(func() { v = lm.LoadLarge(l) }) {
 				res = append(res, "!")
 			} else {
@@ -144,6 +148,7 @@ func memHistory(r *rng.R, spec string, flavour int, length int) string {
 			if isF256(spec) && l < 16 {
 				v = regValue(r, spec, uint16(l))
 			}
+			pendAppend(fmt.Sprintf(" S%08x=%02x", l, v))
 			if protect(func() { lm.StoreLarge(l, v) }) {
 				res = append(res, "!")
 			} else {
